@@ -43,6 +43,13 @@ func drawAllocator(prog *simrt.Stream, b Bounds) signal.Allocator {
 	return signal.Allocator{Channels: c, Length: l, Capacity: k}
 }
 
+// drawInner draws the inner pre-emption mode of a run (schedule stream):
+// none, or a maximal gap between inner yield points (see simrt.Point).
+func drawInner(sim *simrt.Sim) {
+	sim.InnerG = []int{0, 4, 16, 64, 1024}[sim.Sched.Draw(5)]
+	sim.InnerBudget = 48
+}
+
 // freshCheck is oracle 1 of C10/C11: b must be observationally equal to
 // signal.Alloc[T](a) evaluated now. It compares the library against itself,
 // so what Alloc returns (C13's subject) cancels out.
